@@ -1,6 +1,7 @@
 package vh
 
 import (
+	"reflect"
 	"testing"
 
 	"pgregory.net/rapid"
@@ -12,6 +13,9 @@ func TestC10(t *testing.T) {
 		c, head, tailToks := GenItemsCase(rt)
 		c.A = SpellHeadTail(rt, c.D, head, tailToks)
 		c.B = SpellHeadTail(rt, c.D, head, tailToks)
+		for k := 0; k < 4 && reflect.DeepEqual(c.A, c.B); k++ {
+			c.B = SpellHeadTail(rt, c.D, head, tailToks) // comparing a command line with itself says nothing
+		}
 		Report(rt, "C10", "respell", c, CheckC10(c, st))
 	})
 }
@@ -19,16 +23,20 @@ func TestC10(t *testing.T) {
 func TestC11(t *testing.T) {
 	st := StatsFor("C11")
 	rapid.Check(t, func(rt *rapid.T) {
-		c, head, tailToks := GenItemsCase(rt)
-		var cand []int
-		for p := 0; p+1 < len(head); p++ {
-			if head[p].Opt >= 0 && head[p+1].Opt >= 0 && head[p].Opt != head[p+1].Opt {
-				cand = append(cand, p)
+		adjacent := func(head []Item) (cand []int) {
+			for p := 0; p+1 < len(head); p++ {
+				if head[p].Opt >= 0 && head[p+1].Opt >= 0 && head[p].Opt != head[p+1].Opt {
+					cand = append(cand, p)
+				}
 			}
+			return
 		}
+		c, head, tailToks := GenItemsCaseWant(rt, func(h []Item) bool { return len(adjacent(h)) > 0 })
+		cand := adjacent(head)
 		if len(cand) == 0 {
 			// make one: append two occurrences of different options when the declarations allow it
 			if len(c.D.Opts) < 2 {
+				st.Eval()
 				st.Class("skipped:single-option-program")
 				return
 			}
@@ -50,8 +58,11 @@ func TestC11(t *testing.T) {
 		c.Items = head
 		c.A = SpellHeadTail(rt, c.D, head, tailToks)
 		c.B = SpellHeadTail(rt, c.D, sw, tailToks)
-		// non-trivial when one of the two occurrences spans two tokens or sits in a fold in either spelling
-		if len(c.A) != len(head)+len(tailToks) || len(c.B) != len(sw)+len(tailToks) {
+		// non-trivial when the token count differs from the item count in either spelling (some occurrence spans two
+		// tokens or sits in a fold) and the pair itself holds a valued option or two short-named ones (foldable)
+		pairInteresting := !c.D.Opts[head[p].Opt].Bool || !c.D.Opts[head[p+1].Opt].Bool ||
+			(c.D.Opts[head[p].Opt].ShortName() != "" && c.D.Opts[head[p+1].Opt].ShortName() != "")
+		if pairInteresting && (len(c.A) != len(head)+len(tailToks) || len(c.B) != len(sw)+len(tailToks)) {
 			c.Note = "two-token-or-fold"
 		}
 		Report(rt, "C11", "swap", c, CheckC11(c, st))
@@ -95,7 +106,7 @@ func TestC12(t *testing.T) {
 		// sample the sentence with a random subset marked env-backed so that env-backed options get omitted
 		hint := withEnv(p.D, genEnvSetsOne(rt, len(p.D.Opts)))
 		c.Items = SampleItems(rt, hint, p.AST, cfg)
-		c.A = Spell(rt, p.D, c.Items)
+		c.A = SpellX(rt, p.D, c.Items, chance(rt, 1, 3, "foldeq"))
 		if chance(rt, 1, 2, "mutate") {
 			c.A = MutateArgv(rt, c.A)
 		}
